@@ -325,6 +325,12 @@ func init() {
 		i.env.mapOrderNondet = args[0].(bool)
 		return nil
 	})
+	// vNoHang(on): between vNoHang(true) and vNoHang(false) the code under test
+	// must return: exhausting the step budget is a hang, not an exploration cap
+	reg(hp+"vNoHang", func(i *interpreter, fr *frame, args []value) value {
+		i.env.hangGuard = args[0].(bool)
+		return nil
+	})
 	// vSymbolic() tells the harness which mode it runs in.
 	reg(hp+"vSymbolic", func(i *interpreter, fr *frame, args []value) value { return true })
 }
